@@ -4,7 +4,7 @@
    nothing / an injected conflict on a conditional write / a crash before or after the access. *)
 From Coq Require Import List NArith Bool Arith.
 From Verif.Common Require Import Cas.
-From Verif.C19 Require Import Model ModelV Spec BlockLemmas Count Debt Proofs Handles Quiescent Ledger.
+From Verif.C19 Require Import Model ModelV Spec BlockLemmas Count Debt Proofs Handles Quiescent Ledger RunnerEq.
 Import ListNotations.
 
 Notation sys_run := (@Cas.sys_run key value lopt key_eqb key_ltb lmatch (list (op * result))).
@@ -129,3 +129,20 @@ Print Assumptions c19_handle_never_undercounts.
 Theorem c19_handle_agrees_refuted_releasebyhandle_notfound : w4_outcome false = (true, 0%N, 1%N).
 Proof. exact w4_refutes. Qed.
 Print Assumptions c19_handle_agrees_refuted_releasebyhandle_notfound.
+
+(* The runner of the correspondence (client records + settle_w, Spec.model_run) and the system the theorems are
+   about (Cas.sys_run over run_ops) are the same semantics: for every event list they yield the same datastore and
+   matching client states; hence whenever model_run accepts an observed trace, the datastore it compares with the
+   implementation's final datastore is the one of the Cas system after those events. *)
+Theorem c19_runners_agree : forall cf fx fy clients (evs : list (nat * fault)),
+  SIM cf fx fy (mrun cf fx fy clients evs)
+      (sys_run (sys0 cf fx fy clients) (map (fun e => {| ev_client := fst e; ev_fault := snd e |}) evs)).
+Proof. exact runners_agree. Qed.
+Print Assumptions c19_runners_agree.
+
+Theorem c19_model_run_is_sys_run : forall cf fx fy clients os s' cls',
+  model_run cf fx fy init_store (map (fun hc => start_client_w cf fx fy (fst hc) (snd hc)) clients) os = Some (s', cls') ->
+  SIM cf fx fy (s', cls')
+      (sys_run (sys0 cf fx fy clients) (map (fun o => {| ev_client := o_client o; ev_fault := o_fault o |}) os)).
+Proof. exact model_run_is_sys_run. Qed.
+Print Assumptions c19_model_run_is_sys_run.
